@@ -28,7 +28,7 @@ from sims import s2_tokens as T
 PROPERTY = "C13"
 LEVEL = "exploration"
 QUICK_RUNS = 1600
-THOROUGH_RUNS = 120_000
+THOROUGH_RUNS = 60_000
 QUICK_BUDGET_S = 100
 THOROUGH_BUDGET_S = 1500
 RULE = ("one run = (minting method of 12, identity, turns 0-2, workers 1-2, cache configuration, ttl) and, for every token pair of the "
